@@ -264,6 +264,41 @@ def search(ctx):
                     break
         except Exception as ex:
             ctx.violation("C07:raises:%s:%s" % (name, type(ex).__name__), "%s on a many-pixel grid raised %r" % (name, ex), dict(kind="raises", theory=name))
+    # scenes at EVERY distance scale (12 ... 200 um, in steps of 1.6x, the grid as wide as twice the height so that the far corner is
+    # 1.7x farther than the centre): the far corner block computed alone (as a crop, as a point list, as a subset of the crop) equals
+    # the same pixels of the full grid -- a value may not depend on how near the OTHER pixels of the call are
+    from holopy.core.process import subimage as _subimage
+    scales = [12.0, 19.0, 30.0, 49.0, 78.0, 125.0, 200.0]
+    if ctx.tier == "quick":
+        scales = scales[ctx.seed % 2::2] + [78.0]
+    for zi, z0 in enumerate(scales):
+        for name, mk, rr in (("Mie", lambda: Mie(), [0.5, 0.15][zi % 2]), ("Mie(False,False)", lambda: Mie(False, False), 0.5), ("MieLens", lambda: MieLens(lens_angle=0.9), 0.5)):
+            if name != "Mie" and zi % 3:
+                continue
+            try:
+                npx = 36
+                spc = 2.0 * z0 / npx
+                sc = Sphere(n=1.59, r=rr, center=(z0 + 0.3 * spc, z0 - 0.2 * spc, z0 if name != "MieLens" else min(z0, 30.0)))
+                full = detector_grid((npx, npx), spc)
+                th = mk()
+                hf = calc_holo(full, sc, illum_polarization=(0.6, 0.8), theory=th, **OPT)
+                blk = 5
+                corner = full.isel(x=slice(0, blk), y=slice(0, blk))
+                want = hf.isel(x=slice(0, blk), y=slice(0, blk))
+                ctx.tried("distance-scales", (name, z0, rr))
+                hc = calc_holo(corner, sc, illum_polarization=(0.6, 0.8), theory=th, **OPT)
+                pc = T.flat_points(corner)
+                hp_ = calc_holo(detector_points(x=pc[:, 0], y=pc[:, 1], z=pc[:, 2]), sc, illum_polarization=(0.6, 0.8), theory=th, **OPT).values
+                wantf = _flat_scalar(want)
+                amp = max(1e-30, float(np.abs(hf.values - 1).max()))
+                for what, got in (("cropped detector", _flat_scalar(hc)), ("list of the same points", hp_)):
+                    dev = float(np.abs(got - wantf).max())
+                    if not (dev <= 1e-9 * max(1.0, amp)):
+                        ctx.violation("C07:distance-scales:%s" % name, "sphere %.4g um above a grid %.4g um wide (%s): the %dx%d far corner computed as a %s differs from the same pixels of the full grid by %.3g (fringe amplitude %.3g)" % (
+                            z0, npx * spc, name, blk, blk, what, dev, amp), dict(kind="distance-scales", theory=name, height=z0, radius=rr, spacing=spc, what=what))
+                        break
+            except Exception as ex:
+                ctx.violation("C07:raises:%s:%s" % (name, type(ex).__name__), "%s on a scene of height %g raised %r" % (name, z0, ex), dict(kind="raises", theory=name))
     ctx.sample(dict(kind="search", relations=["grid == explicit (shuffled) points", "subset(holo) == holo(subset)", "crop commutes", "shifted origin",
                                               "distinct / reproducible / keeps coords+attrs+original_dims", "inputs untouched"]))
 
